@@ -308,6 +308,16 @@ impl UnrepairedDatabaseHeader {
                     "Primary is corrupted despite 2-phase commit".to_string(),
                 ));
             }
+            // Trusting the primary rolls back whatever the secondary holds. A secondary that is not
+            // older than the primary is a complete commit whose god byte never reached disk; left in
+            // place, it would become the primary again if a later 1-phase commit crashed with only
+            // its god byte persisted, resurrecting the rolled back transaction. Replace it with a
+            // copy of the primary, which is written out with the header before the database is used
+            if self.inner.secondary_slot().transaction_id >= self.inner.primary_slot().transaction_id
+            {
+                let primary = self.inner.primary_slot().clone();
+                self.inner.transaction_slots[self.inner.primary_slot ^ 1] = primary;
+            }
             return Ok(true);
         }
 
